@@ -57,6 +57,13 @@ M = [
  ("c08_offer_rlock", "C08", "queue.go", "func (q *ConcurrentQueue[T]) Offer(val T) error {\n\tq.lock.Lock()\n\tdefer q.lock.Unlock()", "func (q *ConcurrentQueue[T]) Offer(val T) error {\n\tq.lock.RLock()\n\tdefer q.lock.RUnlock()"),
  ("c08_pop_nolock", "C08", "queue.go", "func (q *ConcurrentStack[T]) Pop() (T, error) {\n\tq.lock.Lock()\n\tdefer q.lock.Unlock()\n", "func (q *ConcurrentStack[T]) Pop() (T, error) {\n"),
  ("c08_take_unlock_early", "C08", "queue.go", "func (q *ConcurrentQueue[T]) Take() (T, error) {\n\tq.lock.Lock()\n\tdefer q.lock.Unlock()\n", "func (q *ConcurrentQueue[T]) Take() (T, error) {\n\tq.lock.Lock()\n\tq.lock.Unlock()\n"),
+ ("c12_handler_go_fn", "C12", "handler.go", "\t\tverifAt(\"handler.run.next\")\n\t\tfn()", "\t\tverifAt(\"handler.run.next\")\n\t\tgo fn()"),
+ ("c12_actor_two_loops", "C12", "actor.go", "\tgo newOne.run()\n\n\treturn &newOne", "\tgo newOne.run()\n\tgo newOne.run()\n\n\treturn &newOne"),
+ ("c12_send_drops_when_full", "C12", "actor.go", "\tverifAt(\"actor.Send.checked\")\n\n\tactorSelf.ch <- message", "\tverifAt(\"actor.Send.checked\")\n\n\tif cap(actorSelf.ch) > 2 {\n\t\tselect {\n\t\tcase actorSelf.ch <- message:\n\t\tdefault:\n\t\t}\n\t\treturn\n\t}\n\tactorSelf.ch <- message"),
+ ("c12_spawn_registers_when_closed", "C12", "actor.go", "\tif actorSelf.isClosed {\n\t\treturn newOne\n\t}\n\n\tnewOne.parent = actorSelf", "\tnewOne.parent = actorSelf"),
+ ("c16_order_lost_for_large_pools", "C16", "fp.go", "\t\tif option.RandomOrder == true {", "\t\tif option.RandomOrder == true || worker > 20 {"),
+ ("c16_fixedpool_1_ignored", "C16", "fp.go", "\t\tif option.FixedPool > 0 && option.FixedPool < worker {", "\t\tif option.FixedPool > 1 && option.FixedPool < worker {"),
+ ("c16_last_result_dropped", "C16", "fp.go", "\tfor i := 0; i < len(list); i++ {\n\t\tnewList[i] = newListMap[i]\n\t}", "\tfor i := 0; i < len(list) && i < 33; i++ {\n\t\tnewList[i] = newListMap[i]\n\t}"),
 ]
 
 
